@@ -33,10 +33,10 @@ type Val struct {
 	N *big.Int
 }
 
-func Bytes(b []byte) Val   { return Val{B: append([]byte{}, b...)} }
-func Int(n *big.Int) Val   { return Val{N: new(big.Int).Set(n)} }
-func Int64(n int64) Val    { return Val{N: big.NewInt(n)} }
-func (v Val) IsInt() bool  { return v.N != nil }
+func Bytes(b []byte) Val  { return Val{B: append([]byte{}, b...)} }
+func Int(n *big.Int) Val  { return Val{N: new(big.Int).Set(n)} }
+func Int64(n int64) Val   { return Val{N: big.NewInt(n)} }
+func (v Val) IsInt() bool { return v.N != nil }
 func (v Val) String() string {
 	if v.IsInt() {
 		return "int:" + v.N.String()
